@@ -360,3 +360,44 @@ def config_strategy(lang_fixed=None, small=False):
             'max_top_level': st.sampled_from([10, 10, 5, 7]),
         })
     return st.tuples(sw, limits)
+
+
+# ------------------------------------------------------------------ origin tags
+_origin = {'map': {}, 'on': False}
+
+
+def install_origin_tags():
+    """Wrap every Generator.gen_* / _gen_* routine: the AST node it returns is
+    entered (first writer wins = innermost routine) in an identity-keyed side
+    table with the routine name."""
+    if 'done' in _origin:
+        return
+    _origin['done'] = True
+    from src.generators.generator import Generator
+    from src.ir.node import Node
+    for name in list(vars(Generator)):
+        if not (name.startswith('gen_') or name.startswith('_gen_')):
+            continue
+        fn = getattr(Generator, name)
+        if not callable(fn):
+            continue
+
+        def wrap(fn=fn, name=name):
+            def wrapped(self, *a, **k):
+                r = fn(self, *a, **k)
+                if _origin['on'] and isinstance(r, Node):
+                    _origin['map'].setdefault(id(r), (name, r))
+                return r
+            wrapped.__name__ = name
+            return wrapped
+        setattr(Generator, name, wrap())
+
+
+def origin_tags(on=True):
+    _origin['on'] = on
+    _origin['map'] = {}
+
+
+def origin_of(node_id):
+    r = _origin['map'].get(node_id)
+    return r[0] if r else 'unknown'
